@@ -197,7 +197,7 @@ def run_C10(ctx, args):
         import cosisafety
         cosisafety.run_design(ctx)
 
-def world_of_case29(i, case):
+def world_of_case29(i, case, seed):
     steps = [{"op": "append", "node": a["node"], "ts": a["ts"], "st": a["st"]} for a in case["appends"]]
     for t in sorted(case["elect"]):
         steps.append({"op": "elect", "t": t})
@@ -205,7 +205,10 @@ def world_of_case29(i, case):
         steps.append({"op": "hours", "t": t})
     for t in sorted(case["valid"]):
         steps.append({"op": "valid", "t": t})
-    return {"id": "e%d" % i, "g": case["g"], "x": case["x"], "nodes": 2, "steps": steps}
+    # the code counts hours from the genesis epoch: two of three worlds get an epoch that is not a UTC
+    # midnight (+05:30:00, +13:17:03), so that epoch hours and UTC hours differ
+    return {"id": "e%d" % i, "g": case["g"], "x": case["x"], "nodes": 2, "steps": steps,
+            "epochoff": [0, 19800, 47823][(i + seed) % 3]}
 
 
 def run_C29(ctx, args):
@@ -239,7 +242,7 @@ def run_C29(ctx, args):
     ctx.exhaustive = True
     cases = ctx.tlc_edges(d, "MC_Membership_C29h.tla", "Gen_Membership_C29h.cfg", tag="CASE ", timeout=1500)
     cases.sort(key=lambda c: json.dumps(c["cfg"], sort_keys=True))
-    worlds = [world_of_case29(i, c) for i, c in enumerate(cases)]
+    worlds = [world_of_case29(i, c, ctx.seed) for i, c in enumerate(cases)]
     cpath = os.path.join(ctx.scratch, "cases.json")
     with open(cpath, "w") as fh:
         json.dump({"worlds": worlds}, fh)
